@@ -2013,6 +2013,24 @@ impl BytecodeVM {
     }
 
     /// Execute a single opcode
+    /// Abstract relational comparison: operands are converted to primitives (hint
+    /// number); two strings are compared by UTF-16 code units, anything else numerically.
+    fn relational_compare(
+        interp: &mut Interpreter,
+        left: &JsValue,
+        right: &JsValue,
+        on_strings: impl Fn(core::cmp::Ordering) -> bool,
+        on_numbers: impl Fn(f64, f64) -> bool,
+    ) -> Result<bool, JsError> {
+        let left_prim = interp.coerce_to_primitive(left, "number")?;
+        let right_prim = interp.coerce_to_primitive(right, "number")?;
+        if let (JsValue::String(a), JsValue::String(b)) = (&left_prim, &right_prim) {
+            let ord = a.as_str().encode_utf16().cmp(b.as_str().encode_utf16());
+            return Ok(on_strings(ord));
+        }
+        Ok(on_numbers(left_prim.to_number(), right_prim.to_number()))
+    }
+
     fn execute_op(&mut self, interp: &mut Interpreter, op: Op) -> Result<OpResult, JsError> {
         match op {
             // ═══════════════════════════════════════════════════════════════════════════
@@ -2179,30 +2197,50 @@ impl BytecodeVM {
             }
 
             Op::Lt { dst, left, right } => {
-                let left_val = self.get_reg(left).to_number();
-                let right_val = self.get_reg(right).to_number();
-                self.set_reg(dst, JsValue::Boolean(left_val < right_val));
+                let result = Self::relational_compare(
+                    interp,
+                    self.get_reg(left),
+                    self.get_reg(right),
+                    |ord| ord < core::cmp::Ordering::Equal,
+                    |l, r| l < r,
+                )?;
+                self.set_reg(dst, JsValue::Boolean(result));
                 Ok(OpResult::Continue)
             }
 
             Op::LtEq { dst, left, right } => {
-                let left_val = self.get_reg(left).to_number();
-                let right_val = self.get_reg(right).to_number();
-                self.set_reg(dst, JsValue::Boolean(left_val <= right_val));
+                let result = Self::relational_compare(
+                    interp,
+                    self.get_reg(left),
+                    self.get_reg(right),
+                    |ord| ord <= core::cmp::Ordering::Equal,
+                    |l, r| l <= r,
+                )?;
+                self.set_reg(dst, JsValue::Boolean(result));
                 Ok(OpResult::Continue)
             }
 
             Op::Gt { dst, left, right } => {
-                let left_val = self.get_reg(left).to_number();
-                let right_val = self.get_reg(right).to_number();
-                self.set_reg(dst, JsValue::Boolean(left_val > right_val));
+                let result = Self::relational_compare(
+                    interp,
+                    self.get_reg(left),
+                    self.get_reg(right),
+                    |ord| ord > core::cmp::Ordering::Equal,
+                    |l, r| l > r,
+                )?;
+                self.set_reg(dst, JsValue::Boolean(result));
                 Ok(OpResult::Continue)
             }
 
             Op::GtEq { dst, left, right } => {
-                let left_val = self.get_reg(left).to_number();
-                let right_val = self.get_reg(right).to_number();
-                self.set_reg(dst, JsValue::Boolean(left_val >= right_val));
+                let result = Self::relational_compare(
+                    interp,
+                    self.get_reg(left),
+                    self.get_reg(right),
+                    |ord| ord >= core::cmp::Ordering::Equal,
+                    |l, r| l >= r,
+                )?;
+                self.set_reg(dst, JsValue::Boolean(result));
                 Ok(OpResult::Continue)
             }
 
